@@ -5,6 +5,7 @@
   dispatch, the authenticated-TSIG invariant, and the room available over TCP.
 -/
 import QV.Model.Server
+import QV.Proofs.WriterV0
 import QV.Proofs.Wire
 import QV.Proofs.Tsig
 namespace QV.ServerTsig
@@ -516,7 +517,7 @@ theorem Fr.setLimit (n : Nat) : Fr (setLimit n) := by
   all_goals first | exact ScanFrame.refl s | (constructor <;> simp)
 
 theorem Fr.setExtendedRcode (raw : Nat) : Fr (setExtendedRcode raw) := by
-  intro s; unfold Writer.setExtendedRcode
+  intro s; rw [Writer.setExtendedRcode_v0]; unfold Writer.V0.setExtendedRcode
   split
   · split
     · exact ScanFrame.refl s
@@ -888,7 +889,7 @@ theorem QF.write (pos : Nat) (d : List UInt8) : QF 0 (write pos d) := by
   · exact ⟨QFrame.refl s, Nat.le_refl _⟩
 
 theorem QF.tryPush (d : List UInt8) : QF d.length (tryPush d) := by
-  intro s; unfold Writer.tryPush
+  intro s; rw [Writer.tryPush_v0]; unfold Writer.V0.tryPush
   split
   · exact ⟨QFrame.refl s, by simp⟩
   · split
@@ -916,7 +917,7 @@ theorem QF.setCtx (c : NameCtx) : QF 0 (setCtx c) := by
   intro s; exact ⟨by constructor <;> simp, by simp⟩
 
 theorem QF.pushPointer (p : Nat) : QF 2 (pushPointer p) := by
-  intro s; unfold Writer.pushPointer
+  intro s; rw [Writer.pushPointer_v0]; unfold Writer.V0.pushPointer
   have h := QF.tryPush (u16be (49152 + p)) s
   have hl : (u16be (49152 + p)).length = 2 := by simp [u16be]
   rw [hl] at h
@@ -928,7 +929,7 @@ theorem QF.pushPointer (p : Nat) : QF 2 (pushPointer p) := by
   · rename_i r hne; exact h
 
 theorem QF.writeUncompressedName (n : WName) : QF n.wire.length (writeUncompressedName n) := by
-  intro s; unfold Writer.writeUncompressedName
+  intro s; rw [Writer.writeUncompressedName_v0]; unfold Writer.V0.writeUncompressedName
   have h := QF.tryPush n.wire s
   dsimp only
   split
@@ -956,7 +957,7 @@ theorem wireTo_length_le (n : WName) (k : Nat) : (n.wireTo k).length ≤ n.wire.
     simp only [List.length_append]; omega
 
 theorem QF.writeCompressedUnhintedName (n : WName) : QF (n.wire.length + 2) (writeCompressedUnhintedName n) := by
-  intro s; unfold Writer.writeCompressedUnhintedName
+  intro s; rw [Writer.writeCompressedUnhintedName_v0]; unfold Writer.V0.writeCompressedUnhintedName
   split
   · exact ⟨QFrame.refl s, by simp⟩
   · exact ⟨QFrame.refl s, by simp⟩
@@ -987,7 +988,7 @@ theorem QF.writeCompressedUnhintedName (n : WName) : QF (n.wire.length + 2) (wri
       · rename_i s1 heq; rw [heq] at h; exact ⟨h.1, by have := h.2; simp only at *; omega⟩
 
 theorem QF.writeUnhintedName (n : WName) : QF (n.wire.length + 2) (writeUnhintedName n) := by
-  intro s; unfold Writer.writeUnhintedName
+  intro s; rw [Writer.writeUnhintedName_v0]; unfold Writer.V0.writeUnhintedName
   split
   · exact QF.writeCompressedUnhintedName n s
   · exact (QF.mono (QF.writeUncompressedName n) (by omega)) s
@@ -1043,7 +1044,7 @@ theorem addQuestion_spec (qn : WName) (qt qc : Nat) (s : State) :
         Room s s' ∧ s'.rrStart = s'.cursor ∧ s'.cursor ≤ s.cursor + qn.wire.length + 6) ∧
     (∀ e s', addQuestion qn qt qc s = (.err e, s') →
         Room s s' ∧ s'.cursor = s.cursor ∧ s'.rrStart = s.rrStart) := by
-  unfold Writer.addQuestion
+  rw [Writer.addQuestion_v0]; unfold Writer.V0.addQuestion
   have triv : Room s s := ⟨rfl, rfl, rfl, rfl, rfl, rfl, rfl, rfl, rfl⟩
   split
   · exact ⟨(fun s' h => by cases h), (fun e s' h => by cases h; exact ⟨triv, rfl, rfl⟩)⟩
@@ -1519,7 +1520,7 @@ theorem setRcode_rcodeOnly (rc : Nat) (s : State) : RcodeOnly s (setRcode rc s).
     exact RcodeOnly.refl s
 
 theorem setExtendedRcode_rcodeOnly (raw : Nat) (s : State) : RcodeOnly s (Writer.unwrap (setExtendedRcode raw) s).2 := by
-  unfold Writer.unwrap Writer.setExtendedRcode Writer.setHdr
+  rw [Writer.setExtendedRcode_v0]; unfold Writer.unwrap Writer.V0.setExtendedRcode Writer.setHdr
   cases he : s.edns with
   | none => exact RcodeOnly.refl s
   | some e =>
@@ -1852,7 +1853,7 @@ theorem LW.bind {α β} {x : M α} {f : α → M β} (hx : LW x) (hf : ∀ a, LW
   | panic => exact h1
 
 theorem LW.tryPush (d : List UInt8) : LW (tryPush d) := by
-  intro s; unfold Writer.tryPush Writer.write
+  intro s; rw [Writer.tryPush_v0]; unfold Writer.V0.tryPush Writer.write
   by_cases h1 : s.available < s.cursor
   · rw [if_pos h1]; exact Low.refl s
   · rw [if_neg h1]
@@ -1873,14 +1874,14 @@ theorem LW.ghostLabels (pos : Nat) (ls : List Label) (b : Bool) : LW (ghostLabel
 theorem LW.setCtx (c : NameCtx) : LW (setCtx c) := LW.modify _ (fun _ => ⟨rfl, rfl⟩)
 
 theorem LW.pushPointer (p : Nat) : LW (pushPointer p) := by
-  intro s; unfold Writer.pushPointer Writer.tryPushU16
+  intro s; rw [Writer.pushPointer_v0]; unfold Writer.V0.pushPointer Writer.tryPushU16
   have h := LW.tryPush (u16be (49152 + p)) s
   split
   · rename_i s' heq; rw [heq] at h; exact h
   · rename_i r hne; exact h
 
 theorem LW.writeUncompressedName (n : WName) : LW (writeUncompressedName n) := by
-  intro s; unfold Writer.writeUncompressedName
+  intro s; rw [Writer.writeUncompressedName_v0]; unfold Writer.V0.writeUncompressedName
   have h := LW.tryPush n.wire s
   dsimp only
   split
@@ -1890,7 +1891,7 @@ theorem LW.writeUncompressedName (n : WName) : LW (writeUncompressedName n) := b
   · rename_i s' heq; rw [heq] at h; exact h
 
 theorem LW.writeCompressedUnhintedName (n : WName) : LW (writeCompressedUnhintedName n) := by
-  intro s; unfold Writer.writeCompressedUnhintedName
+  intro s; rw [Writer.writeCompressedUnhintedName_v0]; unfold Writer.V0.writeCompressedUnhintedName
   split
   · exact Low.refl s
   · exact Low.refl s
@@ -1917,7 +1918,7 @@ theorem LW.writeCompressedUnhintedName (n : WName) : LW (writeCompressedUnhinted
       · rename_i s1 heq; rw [heq] at h; exact h
 
 theorem LW.writeUnhintedName (n : WName) : LW (writeUnhintedName n) := by
-  intro s; unfold Writer.writeUnhintedName
+  intro s; rw [Writer.writeUnhintedName_v0]; unfold Writer.V0.writeUnhintedName
   split
   · exact LW.writeCompressedUnhintedName n s
   · exact LW.writeUncompressedName n s
@@ -1944,7 +1945,7 @@ theorem LW.questionBlock (qname : WName) (qtype qclass : Nat) :
 /-- `add_question` leaves the octets below the cursor (the header) alone, whatever its outcome -/
 theorem addQuestion_low (qn : WName) (qt qc : Nat) (s : State) (i : Nat) (hi : i < s.cursor) :
     (addQuestion qn qt qc s).2.octets.getD i 0 = s.octets.getD i 0 := by
-  unfold Writer.addQuestion
+  rw [Writer.addQuestion_v0]; unfold Writer.V0.addQuestion
   split
   · rfl
   · split
